@@ -402,6 +402,16 @@ func (s *Sim) event(sname, ev string, a int, kname string, val Val, force bool, 
 			rec["vals"] = normModel(map[string]Val{kname: val})
 			break
 		}
+		if noop, ok := more["\x00noop"]; ok && noop.T == "p" {
+			// a change event that names only a value the model already has: nothing changes, nothing is numbered
+			cur, has := c.M[kname]
+			if !has {
+				return false
+			}
+			rec["vals"] = normModel(map[string]Val{kname: cur})
+			payload = mustJSON(map[string]any{"values": wireModel(map[string]Val{kname: cur})})
+			break
+		}
 		if val.T == "x" {
 			if _, ok := c.M[kname]; !ok {
 				return false
@@ -414,7 +424,7 @@ func (s *Sim) event(sname, ev string, a int, kname string, val Val, force bool, 
 		ch := map[string]Val{kname: val, "_seq": {T: "p", V: fmt.Sprint(seq)}}
 		for k, v := range more {
 			// further keys of the same event; removing a key that is not there is left out
-			if _, has := c.M[k]; k != kname && k != "_seq" && (v.T != "x" || has) {
+			if _, has := c.M[k]; k != kname && k != "_seq" && k != "\x00noop" && (v.T != "x" || has) {
 				ch[k] = v
 			}
 		}
